@@ -319,7 +319,7 @@ class Effects:
                         continue
                     r = self.roots(it, tg[1], own=True)
                     sites.append({"ev": ev, "how": "attribute store", "target": tg[1], "roots": r, "attr": tg[2]})
-            elif ev.kind == "aug":
+            elif ev.kind == "aug" and not ev.data.get("rebind"):
                 old = ev.data["old"]
                 r = self.roots(it, old, own=True)
                 if r:
